@@ -467,6 +467,11 @@ pub fn gen(tier: Tier, seed: u64) -> Vec<String> {
             sizes.push(rng.range(0, 70000) as usize);
         }
     }
+    // more than 256 segments (> 1 MiB): the segment counter leaves the range of one byte / one drained batch
+    sizes.extend([255 * 4096 + 4095, 256 * 4096, 256 * 4096 + 1, 257 * 4096 + 17]);
+    if tier == Tier::Thorough {
+        sizes.extend([511 * 4096 + 1, 513 * 4096, 600 * 4096 + 5, 1025 * 4096 + 3]);
+    }
     for n in &sizes {
         ops.push(format!("c14 pkg {} {} {}", hexb(&rb(&mut rng, 16)), hexb(&rb(&mut rng, 32)), hexb(&rb(&mut rng, *n))));
     }
@@ -483,6 +488,11 @@ pub fn gen(tier: Tier, seed: u64) -> Vec<String> {
     // workbook packages: new_file() is ~5.0 KiB (full) / ~5.9 KiB (light), so the reachable boundaries start at 2·4096
     let wb_sizes: Vec<usize> = if tier == Tier::Quick { vec![8191, 8192, 8193, 12288] } else { vec![8191, 8192, 8193, 8207, 8208, 8209, 12287, 12288, 12289, 16383, 16384, 16385, 20480] };
     let mut k = 0u64;
+    // end to end above 256 segments: one save per method family (set_password on a file of that size)
+    for n in if tier == Tier::Quick { vec![256 * 4096 + 1] } else { vec![256 * 4096, 256 * 4096 + 1, 300 * 4096 + 77, 520 * 4096 + 1] } {
+        k += 1;
+        ops.push(format!("c14 save sp {} {} {}", hex(&pws[(k as usize) % pws.len()]), n, seed.wrapping_mul(1000) + 900 + k));
+    }
     if tier == Tier::Quick {
         // 6 passwords × 10 cases: every password sees sp sizes and one workbook size per method
         for (i, pw) in pws.iter().enumerate() {
